@@ -31,22 +31,22 @@ type Row struct {
 
 // Call is one logged external call.
 type Call struct {
-	Seq    int
-	Who    string // which factory/process (set by the harness through SetWho)
-	Thread int
-	Op     string
-	ID     string
+	Seq     int
+	Who     string // which factory/process (set by the harness through SetWho)
+	Thread  int
+	Op      string
+	ID      string
 	Created int64
-	Result string
-	At     int64
+	Result  string
+	At      int64
 }
 
 // Fault kinds for Store.
 const (
-	FaultNone = iota
-	FaultError            // request lost: error, nothing written
-	FaultFalseDuplicate   // (false, nil) without writing
-	FaultErrorAfterWrite  // reply lost: written, but an error is returned
+	FaultNone            = iota
+	FaultError           // request lost: error, nothing written
+	FaultFalseDuplicate  // (false, nil) without writing
+	FaultErrorAfterWrite // reply lost: written, but an error is returned
 )
 
 // SpyMetastore is the authoritative, insert-if-absent table.
@@ -267,18 +267,21 @@ func (m *SpyMetastore) Snapshot() map[string]map[int64]*ae.EnvelopeKeyRecord {
 // SpyKMS wraps system keys with AES-256-GCM under a fixed master key (inline, so that
 // no real locked memory and none of its locks are involved).
 type SpyKMS struct {
-	master   [32]byte
-	Calls    []Call
-	Who      string
+	master    [32]byte
+	Calls     []Call
+	Who       string
 	FaultMode int
-	Script   func(callIndex int, op string) int
+	Script    func(callIndex int, op string) int
 	// Returned keeps every plaintext slice handed back by DecryptKey (C10).
 	Returned [][]byte
 	// EncryptInputs keeps copies of what was passed to EncryptKey (the only place SK plaintext may go).
 	EncryptInputs [][]byte
-	Metastore *SpyMetastore // for a common call index with the metastore script, optional
-	NoYield  bool
-	Mute     bool
+	// EncryptInputRefs keeps the very slices passed to EncryptKey (not copies): after the operation they must be
+	// zero or be the memory of a secret (C10: no readable transient copy of a key outlives the call).
+	EncryptInputRefs [][]byte
+	Metastore        *SpyMetastore // for a common call index with the metastore script, optional
+	NoYield          bool
+	Mute             bool
 }
 
 func NewSpyKMS() *SpyKMS {
@@ -328,6 +331,9 @@ func (k *SpyKMS) EncryptKey(_ context.Context, key []byte) ([]byte, error) {
 		vsched.Yield("kms.EncryptKey")
 	}
 	k.EncryptInputs = append(k.EncryptInputs, append([]byte(nil), key...))
+	if !k.Mute {
+		k.EncryptInputRefs = append(k.EncryptInputRefs, key)
+	}
 	if k.fault("EncryptKey") {
 		k.log("EncryptKey", "error")
 		return nil, ErrKMS
@@ -376,17 +382,17 @@ func (k *SpyKMS) Unwrap(enc []byte) ([]byte, error) {
 
 // AEADCall is one logged AEAD operation.
 type AEADCall struct {
-	Seq      int
-	Op       string // Encrypt | Decrypt
-	KeyID    int    // identity of the key material (TrackFactory key id, 0 = unknown)
-	Nonce    string
-	DataKeyID int   // if the plaintext (Encrypt) / result (Decrypt) is itself known key material
-	DataLen  int
-	Err      bool
-	Thread   int
-	KeyHash  string // fingerprint of the key bytes (keys that never lived in a tracked secret have KeyID 0)
-	KeyZero  bool   // the key consists of zero bytes only
-	Data     []byte // copy of the plaintext passed to Encrypt (small inputs only)
+	Seq       int
+	Op        string // Encrypt | Decrypt
+	KeyID     int    // identity of the key material (TrackFactory key id, 0 = unknown)
+	Nonce     string
+	DataKeyID int // if the plaintext (Encrypt) / result (Decrypt) is itself known key material
+	DataLen   int
+	Err       bool
+	Thread    int
+	KeyHash   string // fingerprint of the key bytes (keys that never lived in a tracked secret have KeyID 0)
+	KeyZero   bool   // the key consists of zero bytes only
+	Data      []byte // copy of the plaintext passed to Encrypt (small inputs only)
 }
 
 // SpyAEAD wraps the repository's real AES-256-GCM.
@@ -396,6 +402,9 @@ type SpyAEAD struct {
 	Calls []AEADCall
 	// Returned keeps the plaintext slices produced by Decrypt (key-unwrap results must be wiped, C10).
 	Returned [][]byte
+	// KeyArgs keeps the very slices passed as key (and as data, when the data is key material) to Encrypt / Decrypt:
+	// after the operation each must be zero or be the memory of a secret (C10).
+	KeyArgs  [][]byte
 	Script   func(callIndex int, op string) bool
 	Payloads map[string]bool // registered payloads (to classify plaintexts)
 	// FaultMode 1: every call is a Choose point {ok, fail}
@@ -428,6 +437,10 @@ func (a *SpyAEAD) Encrypt(data, key []byte) ([]byte, error) {
 		c.KeyID = a.F.KeyIDOf(key)
 		c.DataKeyID = a.F.KeyIDOf(data)
 	}
+	a.KeyArgs = append(a.KeyArgs, key)
+	if c.DataKeyID != 0 {
+		a.KeyArgs = append(a.KeyArgs, data)
+	}
 	if a.faulty(c.Seq, "Encrypt") {
 		c.Err = true
 		a.Calls = append(a.Calls, c)
@@ -449,6 +462,7 @@ func (a *SpyAEAD) Decrypt(data, key []byte) ([]byte, error) {
 	if a.F != nil {
 		c.KeyID = a.F.KeyIDOf(key)
 	}
+	a.KeyArgs = append(a.KeyArgs, key)
 	if a.faulty(c.Seq, "Decrypt") {
 		c.Err = true
 		a.Calls = append(a.Calls, c)
